@@ -470,6 +470,9 @@ class SimThreadObj(object):
         W.log('thread_start', (self.name,), None)
 
     def is_alive(self):
+        # a pre-emption point like every other intercepted call: the other thread may run (and finish) right here
+        if W is not None and not W.shutdown:
+            W.sys_enter('thread_is_alive')
         return self._st is not None and self._st.state != 'done'
 
     def join(self, timeout=None):
